@@ -62,7 +62,7 @@ func (fx *FnExec) extern(st *State, in *ssa.Call, fn *ssa.Function, args []Val, 
 		comp := eng.regSlice(types.Typ[types.Uint8])
 		a := sel(eng.heapGet(st, comp), app("sl_arr", b.T))
 		of := app("sl_off", b.T)
-		t := fmt.Sprintf("(+ (* 16777216 (select %s %s)) (* 65536 (select %s (+ %s 1))) (* 256 (select %s (+ %s 2))) (select %s (+ %s 3)))", a, of, a, of, a, of, a, of)
+		t := fmt.Sprintf("(+ (* 16777216 (select %s (idx %s 0))) (* 65536 (select %s (idx %s 1))) (* 256 (select %s (idx %s 2))) (select %s (idx %s 3)))", a, of, a, of, a, of, a, of)
 		k(st, []Val{{T: eng.define(st, "be32", SInt, t), S: SInt, GT: types.Typ[types.Uint32]}})
 	case "strings.Split":
 		s, sep := args[0], args[1]
